@@ -6,17 +6,19 @@
 package main
 
 import (
+	"bytes"
 	"fmt"
-	"os"
 	"strings"
 	"sync"
 
 	"github.com/bio-routing/bio-rd/protocols/bgp/packet"
+	"github.com/bio-routing/bio-rd/protocols/bgp/server"
 	"github.com/bio-routing/bio-rd/protocols/bgp/types"
 
 	"verifharness/internal/gen"
 	"verifharness/internal/rig"
 	"verifharness/internal/vf"
+	"verifharness/internal/wire"
 )
 
 type c9case struct {
@@ -270,7 +272,11 @@ func main() {
 		if raw, ok := r.Replaying(); ok {
 			var c c9case
 			vf.Decode(raw, &c)
-			runCase(r, c)
+			if c.Mode == "wire" {
+				wireCase(r, c)
+			} else {
+				runCase(r, c)
+			}
 			return
 		}
 		cases := enumerate()
@@ -307,13 +313,154 @@ func main() {
 		r.Set("wire_half", wireHalf(r))
 		r.Require("advertised_and_rewrites_checked", 1000)
 		r.Require("forbidden_and_absence_checked", 1000)
+		r.Require("wire_cases_judged", 100)
 	})
 }
 
-// wireHalf runs the UPDATE-bytes half when the update-sender hook and the codec are available.
-func wireHalf(r *vf.Run) string {
-	if _, err := os.Stat(os.Getenv("VERIF_REPO_DIR") + "/protocols/bgp/server/verif_hooks_sender.go"); err != nil {
-		return "not run: update-sender hook (protocols/bgp/server/verif_hooks_sender.go) not present in the tree"
+// wireCase runs one combination through the real pipeline with the real update sender (hook-built, bound to a
+// capture writer) registered on the Adj-RIB-Out, forces one aggregation round with the sender's own EndOfRIB() and
+// judges the UPDATE bytes with the independent codec.
+func wireCase(r *vf.Run, c c9case) (sent bool) {
+	l := rig.DefaultLocal
+	s := c.sess()
+	a := c.path()
+	feat := func(extra ...any) map[string]string {
+		f := vf.F("target", c.Target, "observed", "wire")
+		for i := 0; i+1 < len(extra); i += 2 {
+			f[fmt.Sprint(extra[i])] = fmt.Sprint(extra[i+1])
+		}
+		return f
 	}
-	return "not run: hook present but this build of the check predates it"
+	type res struct {
+		stream []byte
+		stored []rig.Attr
+	}
+	out, g, hung, st := rig.RunGuarded(hg, "wire/"+c.Target, func() (x res) {
+		rg := rig.New(l, true)
+		o := rg.AddOut(s, rig.AcceptAll())
+		var buf bytes.Buffer
+		snd := server.VerifNewUpdateSender(server.VerifUpdateSenderConfig{Out: &buf, AFI: 1, SAFI: 1, IBGP: s.IBGP(), RRClient: s.Kind == rig.IBGPRR, ASN4: true, LocalASN: l.ASN})
+		o.Table.Register(snd)
+		rg.Loc.AddPath(pfx.Bio(), a.Build(rg.Pool))
+		snd.EndOfRIB()
+		for _, rt := range o.Table.Dump() {
+			for _, p := range rt.Paths() {
+				x.stored = append(x.stored, rig.FromPath(p))
+			}
+		}
+		x.stream = append([]byte{}, buf.Bytes()...)
+		return x
+	})
+	if hung {
+		r.Violate(vf.Violation{Clause: "hang", Features: feat(), Detail: "the update sender never returned; blocked in:\n" + st, Case: c})
+		return
+	}
+	if g != "" {
+		r.Violate(vf.Violation{Clause: "panic", Features: feat("site", rig.PanicSite(g)), Detail: fmt.Sprintf("path %s to %s: panic: %s", a.Short(), s, g), Case: c})
+		return
+	}
+	msgs, rest, err := wire.Split(out.stream)
+	if err != nil || len(rest) > 0 {
+		r.Violate(vf.Violation{Clause: "wire:framing", Features: feat(), Detail: fmt.Sprintf("captured stream does not split into messages: %v, %d trailing bytes", err, len(rest)), Case: c})
+		return
+	}
+	var pa *wire.PathAttrs
+	for _, m := range msgs {
+		if m.Type != wire.TypeUpdate {
+			continue
+		}
+		u, err := wire.DecodeUpdate(m.Body, wire.Options{AS4: true})
+		if err != nil {
+			r.Violate(vf.Violation{Clause: "wire:undecodable", Features: feat(), Detail: fmt.Sprintf("path %s to %s: UPDATE %x does not decode: %v", a.Short(), s, m.Raw, err), Case: c})
+			return
+		}
+		for _, n := range u.Announced() {
+			if n.Family == wire.IPv4Unicast && n.NLRI.Len == pfx.Len && bytes.HasPrefix([]byte{198, 51, 100}, n.NLRI.Addr[:min(3, len(n.NLRI.Addr))]) {
+				pa = u.PA
+			}
+		}
+	}
+	if ex := rig.Excluded(l, s, a); ex != "" {
+		if pa != nil {
+			r.Violate(vf.Violation{Clause: "advertised:" + ex, Features: feat(), Case: c, Detail: fmt.Sprintf("path %s must not be advertised on %s (%s) but an UPDATE announces the prefix", a.Short(), s, ex)})
+		}
+		return true
+	}
+	if len(out.stored) == 0 {
+		return false
+	}
+	if pa == nil {
+		r.Violate(vf.Violation{Clause: "wire:not-sent", Features: feat(), Case: c, Detail: fmt.Sprintf("the Adj-RIB-Out holds %s for %s but no UPDATE announces the prefix (%d messages captured)", rig.ShortList(out.stored), s, len(msgs))})
+		return false
+	}
+	w := rig.Rewrite(l, s, a)
+	desc := func() string { return fmt.Sprintf("path %s to %s, Adj-RIB-Out %s", a.Short(), s, rig.ShortList(out.stored)) }
+	// W4: LOCAL_PREF only to iBGP peers
+	if (pa.LocalPref != nil) != s.IBGP() {
+		r.Violate(vf.Violation{Clause: "wire:W4-local-pref", Features: feat(), Case: c, Detail: fmt.Sprintf("LOCAL_PREF present=%v on a session with iBGP=%v: %s", pa.LocalPref != nil, s.IBGP(), desc())})
+	}
+	// W1
+	if s.Kind == rig.EBGP {
+		if len(pa.ASPath) == 0 || pa.ASPath[0].Type != wire.SegSequence || len(pa.ASPath[0].ASNs) == 0 || pa.ASPath[0].ASNs[0] != l.ASN {
+			r.Violate(vf.Violation{Clause: "wire:W1-prepend", Features: feat(), Case: c, Detail: fmt.Sprintf("AS_PATH on the wire %v does not start with the local ASN: %s", pa.ASPath, desc())})
+		}
+		if !bytes.Equal(pa.NextHop, []byte{byte(l.IP >> 24), byte(l.IP >> 16), byte(l.IP >> 8), byte(l.IP)}) {
+			r.Violate(vf.Violation{Clause: "wire:W1-nexthop", Features: feat(), Case: c, Detail: fmt.Sprintf("NEXT_HOP on the wire %v is not the local address: %s", pa.NextHop, desc())})
+		}
+	}
+	// W2
+	if w.RRRequired {
+		if pa.OriginatorID == nil {
+			r.Violate(vf.Violation{Clause: "wire:W2-originator-id", Features: feat(), Case: c, Detail: "reflected to an RR client, no ORIGINATOR_ID on the wire: " + desc()})
+		}
+		if len(pa.ClusterList) == 0 || pa.ClusterList[0] != l.ClusterID {
+			r.Violate(vf.Violation{Clause: "wire:W2-cluster-list", Features: feat(), Case: c, Detail: fmt.Sprintf("reflected to an RR client, CLUSTER_LIST on the wire %v does not start with the local cluster id: %s", pa.ClusterList, desc())})
+		}
+	}
+	// W3
+	if !s.IBGP() && s.Role.Known() {
+		switch s.Role.Remote {
+		case packet.PeerRoleRoleCustomer, packet.PeerRoleRolePeer, packet.PeerRoleRoleRSClient:
+			if pa.OTC == nil {
+				r.Violate(vf.Violation{Clause: "wire:W3-otc", Features: feat("role", rig.RoleNames[s.Role.Remote]), Case: c, Detail: fmt.Sprintf("towards a %s the UPDATE carries no OTC attribute: %s", rig.RoleNames[s.Role.Remote], desc())})
+			}
+		}
+	}
+	return true
+}
+
+// wireHalf enumerates a sub-domain (2 AS_PATH shapes x 2 community sets x 4 sources x 4 targets x 6 role settings on
+// eBGP targets x OTC absent/other) at the wire.
+func wireHalf(r *vf.Run) string {
+	n, sent := 0, 0
+	roles := []*rig.Role{nil, {Enabled: true, AdvByPeer: true, Local: 0, Remote: 3}, {Enabled: true, AdvByPeer: true, Local: 3, Remote: 0},
+		{Enabled: true, AdvByPeer: true, Local: 4, Remote: 4}, {Enabled: true, AdvByPeer: true, Local: 1, Remote: 2}, {Enabled: true, AdvByPeer: true, Local: 2, Remote: 1}}
+	for _, shape := range []int{0, 5} {
+		for _, comms := range []int{0, 1} {
+			for _, src := range []string{"ebgp", "ibgp", "rrclient", "static"} {
+				for _, tgt := range rig.Kinds {
+					for _, otc := range []string{"none", "other"} {
+						rs := roles
+						if tgt == rig.IBGP || tgt == rig.IBGPRR {
+							rs = roles[:1]
+						}
+						if src == "static" && (shape > 0 || comms > 0 || otc != "none") {
+							continue
+						}
+						for _, role := range rs {
+							c := c9case{Shape: shape, Comms: comms, Src: src, Target: tgt, Role: role, OTC: otc, Mode: "wire"}
+							n++
+							if wireCase(r, c) {
+								sent++
+							}
+							r.Eval(1)
+						}
+					}
+				}
+			}
+		}
+	}
+	r.Count("wire_cases", n)
+	r.Count("wire_cases_judged", sent)
+	return fmt.Sprintf("run: %d combinations through the hook-built update sender, %d judged on UPDATE bytes", n, sent)
 }
